@@ -43,6 +43,55 @@ Theorem C11_handler_iff_accepted : forall words pu e fuel h ps p run sid raw n,
 Proof. exact handler_iff_pure. Qed.
 Print Assumptions C11_handler_iff_accepted.
 
+(* (1'') CallableStep.Call called DIRECTLY with a native value v (no Unserialize in front of it): the
+   handler runs — once, with exactly v — iff v passes the step's input schema; a rejected v (a value
+   of the right Go type that violates a constraint included) is answered with InvalidInputError and
+   touches nothing.  This is the clause that makes step.go's re-validation necessary. *)
+Theorem C11_direct_handler_iff : forall words pu e fuel h ps p run sid v,
+  (exists d, log_of (call_direct words pu e fuel h ps p run sid v) = [LStep sid run d v]) <->
+  (exists st, alookup sid p = Some st /\ s_validate words pu e fuel (sd_input st) v = Ok tt).
+Proof. exact direct_handler_iff. Qed.
+Print Assumptions C11_direct_handler_iff.
+
+Theorem C11_direct_handler_none_iff : forall words pu e fuel h ps p run sid v,
+  log_of (call_direct words pu e fuel h ps p run sid v) = [] <->
+  ~ (exists st, alookup sid p = Some st /\ s_validate words pu e fuel (sd_input st) v = Ok tt).
+Proof. exact direct_handler_none_iff. Qed.
+Print Assumptions C11_direct_handler_none_iff.
+
+Theorem C11_direct_handler_at_most_once : forall words pu e fuel h ps p run sid v,
+  (List.length (log_of (call_direct words pu e fuel h ps p run sid v)) <= 1)%nat.
+Proof. exact direct_handler_never_twice. Qed.
+Print Assumptions C11_direct_handler_at_most_once.
+
+Theorem C11_direct_invalid_input : forall words pu e fuel h ps p run sid v er,
+  res_of (call_direct words pu e fuel h ps p run sid v) = SErr (CEInvalidInput er) <->
+  exists st, alookup sid p = Some st /\ s_validate words pu e fuel (sd_input st) v = Err er.
+Proof. exact direct_invalid_input. Qed.
+Print Assumptions C11_direct_invalid_input.
+
+Theorem C11_direct_rejected_untouched : forall words pu e fuel h ps p run sid v st er,
+  alookup sid p = Some st -> s_validate words pu e fuel (sd_input st) v = Err er ->
+  call_direct words pu e fuel h ps p run sid v = (SErr (CEInvalidInput er), [], ps).
+Proof. exact direct_rejected_untouched. Qed.
+Print Assumptions C11_direct_rejected_untouched.
+
+Theorem C11_direct_output_checked : forall words pu e fuel h ps p run sid v oid od,
+  res_of (call_direct words pu e fuel h ps p run sid v) = SOk (oid, od) <->
+  exists st os, alookup sid p = Some st /\ s_validate words pu e fuel (sd_input st) v = Ok tt /\
+    h sid v = (oid, od) /\ alookup oid (sd_outputs st) = Some os /\ s_validate words pu e fuel os od = Ok tt.
+Proof. exact direct_output_checked. Qed.
+Print Assumptions C11_direct_output_checked.
+
+(* CallStep = Unserialize ; Call ; Serialize *)
+Theorem C11_call_step_factors : forall words pu e fuel h ps p run sid raw st n,
+  alookup sid p = Some st -> s_unser words pu e fuel (sd_input st) raw = Ok n ->
+  call_step words pu e fuel h ps p run sid raw =
+  (serialize_result words pu e fuel st (res_of (call_direct words pu e fuel h ps p run sid n)),
+   log_of (call_direct words pu e fuel h ps p run sid n), state_of (call_direct words pu e fuel h ps p run sid n)).
+Proof. exact call_step_factors. Qed.
+Print Assumptions C11_call_step_factors.
+
 (* (2) Ok (out, w) iff the handler ran, `out` is a declared output, the data validates against
    that output's schema, and w is its serialization. *)
 Theorem C11_output_checked : forall words pu e fuel h ps p run sid raw oid w,
@@ -216,6 +265,17 @@ Section Examples.
     /\ res_of (CS h_undecl [] p0 "r1" "step1" raw_ok) = SErr CEUndeclaredOutput
     /\ match res_of (CS h_baddata [] p0 "r1" "step1" raw_ok) with SErr (CEOutputData _) => True | _ => False end
     /\ res_of (SG [] p0 "r1" "step1" "nosuchsignal" raw_ok) = SErr CENoSuchSignal.
+  Proof. split; [|split; [|split]]; vm_compute; try reflexivity; exact I. Qed.
+  (* the direct call: a native map of the right Go type whose field violates `a >= 0` never reaches the
+     handler; the valid one does, and the output comes back unserialized *)
+  Let nat_bad := VMap t_str_map false [(vstr "a", vi64 (-1))].
+  Let DC := call_direct [] (fun _ _ => None) e0 50.
+  Example C11_ex_direct :
+    DC h_ok [] p0 "r1" "step1" nat_in = (SOk ("success", out_ok), [LStep "step1" "r1" (Some 0%N) nat_in],
+                                           [("step1", mkTab [("r1", Some 0%N)] 1%N)])
+    /\ log_of (DC h_ok [] p0 "r1" "step1" nat_bad) = []
+    /\ state_of (DC h_ok [] p0 "r1" "step1" nat_bad) = []
+    /\ match res_of (DC h_ok [] p0 "r1" "step1" nat_bad) with SErr (CEInvalidInput _) => True | _ => False end.
   Proof. split; [|split; [|split]]; vm_compute; try reflexivity; exact I. Qed.
   (* signal first, then the step, then another run: one initialiser run per run id *)
   Example C11_ex_history :
